@@ -26,6 +26,7 @@ fn gen(family: Family, universe: u32, weights: Vec<(Kd, u32)>) -> Gen {
         max_hint: 3000,
         no_fill: false,
         fault_pct: 0,
+        big_tables: false,
         bands_plan: false,
         churn: None,
         order: Vec::new(),
@@ -325,6 +326,13 @@ fn spec_for_inner(prop: &str, thorough: bool, rng: &mut Rng) -> RunSpec {
             let cfg = base_cfg(rng, 3);
             let mut g = gen(Family::Map, universe, with(MAP_BUILD, &[(Kd::Iter, 30), (Kd::IntoIter, 10), (Kd::Drain, 8)], rng));
             g.macro_den = *rng.pick(&[10, 20]);
+            let mut n_ops = n_ops;
+            if rng.below(12) == 0 && !["M208", "M64a"].contains(&world.as_str()) {
+                // short histories that may contain a mostly empty table of 131 072 buckets
+                g.big_tables = true;
+                g.weights.push((Kd::WithCapacity, 12));
+                n_ops = n_ops.min(40);
+            }
             RunSpec { world, cfg, gen: g, n_ops }
         }
         "C10" => {
@@ -386,7 +394,7 @@ fn spec_for_inner(prop: &str, thorough: bool, rng: &mut Rng) -> RunSpec {
             // a fifth of the scenarios are HashTable histories after all: they are replayed under the second back-end
             // too, but judged there by the reference model only (no transcript comparison, see runner.rs)
             let table = rng.below(5) == 0;
-            let world = if table { "T24".to_string() } else { pick_world(rng, &[("M16", 3), ("Mpod", 2)]) };
+            let world = if table { pick_world(rng, &[("T24", 5), ("Tzd", 1)]) } else { pick_world(rng, &[("M16", 6), ("Mpod", 4), ("Mzz", 1)]) };
             let mut cfg = base_cfg(rng, 3);
             cfg.group_monitor = true;
             if rng.below(2) == 0 {
@@ -472,7 +480,7 @@ pub fn owns(prop: &str, v: &Violation) -> bool {
     let c = v.class.as_str();
     let k = v.op_kind.as_str();
     // memory-safety monitors: structure invariants, ledger (double drop, dead reference), canaries, crashes
-    let safety = starts(c, "inv/") || starts(c, "ledger/invalid-ref") || starts(c, "ledger/double-drop") || starts(c, "ledger/drop-unknown") || starts(c, "ledger/corrupt") || starts(c, "alloc/canary") || starts(c, "alloc/use-after-free") || starts(c, "alloc/bad-free") || starts(c, "alloc/double-free") || starts(c, "alloc/invalid-layout") || starts(c, "alloc/layout-mismatch") || starts(c, "crash/") || starts(c, "hang/");
+    let safety = starts(c, "inv/") || starts(c, "ledger/invalid-ref") || starts(c, "ledger/double-drop") || starts(c, "ledger/drop-unknown") || starts(c, "ledger/corrupt") || starts(c, "alloc/canary") || starts(c, "alloc/use-after-free") || starts(c, "alloc/bad-free") || starts(c, "alloc/double-free") || starts(c, "alloc/invalid-layout") || starts(c, "alloc/layout-mismatch") || starts(c, "alloc/wrong-allocator") || starts(c, "crash/") || starts(c, "hang/");
     // functional disagreement with the reference model, attributed by the kind of the failing operation
     let functional = starts(c, "ret/") || starts(c, "contents/") || starts(c, "len/") || starts(c, "sweep/") || starts(c, "panic/") || starts(c, "hang/probe-");
     match prop {
@@ -484,7 +492,7 @@ pub fn owns(prop: &str, v: &Violation) -> bool {
         "C02" => safety || starts(c, "getmany/alias") || starts(c, "postpanic/dead-element") || starts(c, "panic/") || starts(c, "alloc/size-mismatch") || starts(c, "alloc/over-reservation"),
         // an element that is still stored after it was dropped, or that vanished without being dropped, while a
         // callback panic unwinds is the exactly-once statement under unwinding
-        "C03" => starts(c, "inv/I2") || starts(c, "postpanic/dead-element") || starts(c, "postpanic/leaked-element") || starts(c, "ledger/") || starts(c, "alloc/leak") || starts(c, "alloc/double-free") || starts(c, "alloc/bad-free") || starts(c, "alloc/layout-mismatch") || starts(c, "alloc/size-mismatch") || starts(c, "cap/alloc-on-new"),
+        "C03" => starts(c, "inv/I2") || starts(c, "postpanic/dead-element") || starts(c, "postpanic/leaked-element") || starts(c, "ledger/") || starts(c, "alloc/leak") || starts(c, "alloc/double-free") || starts(c, "alloc/bad-free") || starts(c, "alloc/layout-mismatch") || starts(c, "alloc/wrong-allocator") || starts(c, "alloc/size-mismatch") || starts(c, "cap/alloc-on-new"),
         "C04" => starts(c, "postpanic/") || safety || starts(c, "alloc/") || starts(c, "ledger/"),
         "C05" => safety || starts(c, "diverge/") || starts(c, "byz/") || starts(c, "ledger/") || starts(c, "alloc/") || starts(c, "getmany/alias") || starts(c, "panic/"),
         "C06" => starts(c, "inv/") || functional || starts(c, "entry/") || starts(c, "iterhash/") || starts(c, "reinsert/") || starts(c, "retain/") || starts(c, "extract/") || starts(c, "drain/yield") || starts(c, "iterlen/") || starts(c, "getmany/"),
